@@ -400,3 +400,23 @@ def main(tier):
     if obs:
         run.sample({"soc": obs[0]["cfg"]["soc"], "all_resources": obs[0]["cfg"]["all"], "transfer": obs[0]["steps"][1]})
     return run.finish()
+
+
+def replay(path):
+    with open(path) as f:
+        doc = json.load(f)
+    soc = doc["replay"].get("soc")
+    if soc is None:
+        print(f"replay file {path} carries no hierarchy; finding was: {doc.get('what')}")
+        return common.EXIT_MACHINERY
+    tr = _job(soc)
+    if "not_observable" in tr:
+        print("hierarchy cannot be built on this tree: " + tr["not_observable"])
+        return common.EXIT_MACHINERY
+    fails = tracecheck.validate("Soc_Trace", "Soc", [tr])
+    if fails:
+        st = tr["steps"][fails[0]["t"] - 1]
+        print(f"VIOLATION property=C01 replay={path}\n  what: {fails[0]['err']} at adr={st['i']['adr']} we={st['i']['we']}")
+        return common.EXIT_VIOLATION
+    print(f"replay of {path}: all {len(tr['steps'])} transfers accepted on this tree")
+    return common.EXIT_OK
